@@ -114,7 +114,7 @@ PROPS = {
         "Suspicion timeout takes effect iff unrefuted; Down is final until forgotten",
         {
             "effect iff same identity, same incarnation, not Down": "theorem (full): timeout_on_same_identity, timeout_on_superseded_identity (over the generated can_change table)",
-            "stale-epoch timeout: no effect at all": "theorem (full): stale_timeout_is_noop",
+            "stale-epoch timeout: no effect at all": "theorem (full): stale_timeout_is_noop; epoch_change_makes_pending_timeouts_stale (reset, going Idle and going Defunct each move the token to a different value - over the counter arithmetic the translator reads from the three sites - so a timeout raised before the change is stale afterwards; added after seeded C11-4/C11-7, a saturating token in reset(), were no longer reported once the translator made the model follow the source)",
             "cancelled timeout: no state change, no datagram (no TurnUndead), no notification": "theorem (full, for states whose connection state agrees with the member count): cancelled_timeout_is_noop, unsuccessful_summary_is_silent - false before the fix: commit for finding F2",
             "Down never changes": "theorem (full): down_is_terminal, C01.down_is_final",
             "a Down identity never becomes active again; its record goes only by its forget-timer or a newer identity, over whole histories": "theorem (full): C11H.down_identity_never_active_again — from any reachable state in which x is recorded Down, over any further history of public calls (any batches, datagram bytes, timers incl. suspicion timeouts and forget-timers of other identities, change_identity, any RNG draws) without a forget-timer for x or a newer identity of its address, the address of x stays listed, its one record is x as Down or an identity of a higher generation, and x is never active; C11H.down_is_final_until_forgotten (history), down_stays_down_step (one call); Proofs/DownInv.lean; the hypothesis is the point the property names (example: after its forget-timer the identity rejoins)",
@@ -143,6 +143,7 @@ PROPS = {
         {
             "success only on an Ack of the current number from the probed member or a ForwardedAck from an asked, not yet counted helper": "theorem (full): succeeded_iff, ack_counts_only_from_target, ack_changes_only_the_flag, forwarded_ack_counts_only_from_asked, failed_only_without_evidence, start_resets_evidence (over the generated Probe::succeeded)",
             "a round ends without suspicion only if evidence arrived since it started, over whole histories": "theorem (full): C12H.round_answered_only_on_evidence — from the start of a round for m under number N, over any history of public calls (any bytes, batches, timers incl. further probe timers, API calls, identity changes, RNG draws): if the probe still targets m under N and take_failed has nobody to suspect, one of the calls in between delivered a datagram whose header is an Ack numbered N from m or a ForwardedAck numbered N; C12H.no_evidence_step / no_evidence_history (invariant NoEv); Proofs/ComposeQ.lean (probe-aware composition with the two evidence writes as hypotheses about the header being handled), Proofs/EvidenceInv.lean; worked example: member learnt, probe timer, Ack",
+            "once answered a round stays answered until the next probe timer": "theorem (full): C12H.evidence_suffices — once the round for m under N counts as answered, over any history of calls other than a probe timer (stale or contradicting gossip, duplicate or foreign Acks, other timers, API calls), while the probe still targets m under N take_failed has nobody to suspect; C12H.answered_stays_answered_step (invariant HasEv); with round_answered_only_on_evidence this characterises RoundAnswered, the timing premise of C02S",
             "indirect requests: only without Ack, at most num_indirect_probes, distinct... active members, never the target": "theorem (full): indirect_helpers, indirect_timer_guards ('distinct' follows from one-record-per-address, C09)",
             "Ping answered with Ack of the same number; relay preserves origin, target and number; requests naming the instance rejected": "theorem (full): ping_is_acked, ping_req_is_relayed, indirect_ping_is_answered, indirect_ack_is_forwarded, relay_for_ourselves_is_rejected",
             "failed round: probed member becomes Suspect and exactly one suspicion timeout is scheduled": "theorem (full): failed_round_schedules_exactly_one_timeout (exactly one ChangeSuspectToDown for that identity, incarnation and epoch, also when the member was already Suspect), unanswered_member_becomes_suspect, refuted_member_is_left_alone, failed_round_forgotten_member; that a round without evidence is what take_failed reports: failed_only_without_evidence",
@@ -226,6 +227,7 @@ PROPS = {
             "Alive knowledge never creates suspicion (a calm list stays calm under Alive updates, any RNG draw, any conflict outcome)": "theorem (full): alive_updates_keep_the_list_calm",
             "sender liveness learned from every header; Ping answered with its Ack; an acked round raises no suspicion; Announce answered with Feed": "theorem (full): sender_is_learned_from_header, ping_gets_its_ack, acked_round_raises_no_suspicion, announce_gets_a_feed",
             "zero false suspicion over whole fault-free cluster runs, given that every probe round is answered in time": "theorem (full, cluster level): C02S.calm_cluster_stays_calm — any number of fresh instances with pairwise different addresses; datagrams delivered late, repeatedly, to the wrong instance or never; timers in any order; announce/gossip/broadcast/add_broadcast/set_config at any time; any RNG draws; codec laws (proven for the four codec models): if every probe timer that fires finds its previous round answered (RoundAnswered), then at every moment every record of every instance is Alive and about a cluster identity, no suspicion timer is pending anywhere and every datagram on the wire carries only Alive claims and is not a TurnUndead; C02S.wire_carries_only_alive_claims (what a peer parses); C02S.calm_call_stays_calm (one call: suspicion arises only from a failed probe round or a Suspect/Down claim, departure or identity change); Proofs/CalmInv.lean (a walk over the calm paths of every function), Proofs/CalmNet.lean (CalmReach, CalmNet); worked example: announce + delivery",
+            "views only grow in a fault-free run (the safety half of discovery); nobody ever refutes": "theorem (full, cluster level): C02S.views_only_grow — over any further fault-free run (CalmRun) an instance that lists a member keeps listing that very identity: no forget-timer ever exists (part of the CalmNet invariant), no identity is superseded; calm_cluster_stays_calm also gives: every instance and every record stays at incarnation 0; Proofs/CalmGrow.lean (CalmStep/CalmRun, GenInv per node)",
             "the premise itself (every probe round is answered within probe_rtt / probe_period under bounded latency)": "partial: depends on latencies and clocks; explored by the discrete-event simulator on the real crate (state checked after every event)",
             "full discovery within a linear number of probe periods": "partial and FALSE in general: holds in the simulator whenever every joiner announces to a settled member or to one common seed; fails when a joiner announces to a member whose own view is not settled yet (KNOWN FINDING F7, protocol limitation, not repaired)",
         },
